@@ -65,6 +65,23 @@ def seq_of(ev, t, selfs, others):
                 return None
             return a + b
         return None
+    if t.k == "mutated":
+        # a vector extended in place: v.push(x) = v ++ [x] ; v.insert(0, x) = [x] ++ v ; v.extend(w) / v.append(w) = v ++ w
+        base = seq_of(ev, t.a[0], selfs, others)
+        eff = t.a[1]
+        if base is None or not (isinstance(eff, Tm) and eff.k == "call"):
+            return None
+        m = eff.a[0].rsplit("::", 1)[-1]
+        if m == "push" and len(eff.a) == 3:
+            x = seq_of(ev, eff.a[2], selfs, others)
+            return None if x is None else base + x
+        if m == "insert" and len(eff.a) == 4 and eff.a[2].k == "lit" and eff.a[2].a[1] == "0":
+            x = seq_of(ev, eff.a[3], selfs, others)
+            return None if x is None else x + base
+        if m in ("extend", "append", "extend_from_slice") and len(eff.a) == 3:
+            x = seq_of(ev, eff.a[2], selfs, others)
+            return None if x is None else base + x
+        return None
     return None
 
 
@@ -107,6 +124,46 @@ def r1(prog, ev, rep):
     rep.check(good, "C02-R1", "State::reduce", prog.loc_of(sp), "self.data.reduce(other.data)", "State::reduce is `%s`" % st)
 
 
+def loop_form_flat_map(prog, ev, rep, t, body, where):
+    """`let mut out = vec![]; for p in nodes { match f(p) { Ref(x) => out.push(x), Refs(xs) => out.extend(xs), _ => {} } } Refs(out)`:
+    the accumulator only ever grows at its end, by f(p)'s single node or by f(p)'s list unchanged, for the input nodes in order."""
+    acc = body.a[2][0][1]
+    if acc.k != "phi":
+        return False
+    item = Tm("call", ("<item>", Tm("proj", (t.a[0], "Data::Refs.0"))))
+    call = Tm("call", ("<apply>", Tm("param", (1, "f")), item))
+    effects = []
+    for alt in acc.a:
+        if alt.k == "call" and alt.a == ("<vec>",):
+            continue
+        if alt.k == "loopvar":
+            continue
+        if alt.k != "mutated":
+            return False
+        prev, eff = alt.a
+        okprev = prev.k == "phi" and all((x.k == "call" and x.a == ("<vec>",)) or x.k == "loopvar" for x in prev.a)
+        if not okprev or not (isinstance(eff, Tm) and eff.k == "call"):
+            return False
+        effects.append(eff)
+    kinds = set()
+    for eff in effects:
+        m = eff.a[0].rsplit("::", 1)[-1]
+        x = eff.a[2] if len(eff.a) == 3 else None
+        while x is not None and x.k == "call" and len(x.a) == 2 and x.a[0].rsplit("::", 1)[-1] in ("into_iter", "iter"):
+            x = x.a[1]
+        if m == "push" and x == Tm("proj", (call, "Data::Ref.0")):
+            kinds.add("Ref")
+        elif m in ("extend", "append") and x == Tm("proj", (call, "Data::Refs.0")):
+            kinds.add("Refs")
+        else:
+            return False
+    if kinds != {"Ref", "Refs"}:
+        return False
+    rep.ok("C02-R2", "flat_map/Refs/pipeline", where, "loop over the input nodes in order, appending at the end of the accumulator")
+    rep.ok("C02-R2", "flat_map/Refs/wrapper", where, "Ref(p) -> push(p); Refs(v) -> extend(v)")
+    return True
+
+
 def r2(prog, ev, rep):
     rep.rule("C02-R2", "Data::flat_map over a node list: into_iter -> flat_map(wrapper) -> collect, wrapper returns the callee's "
              "single node as one element and its node list unchanged", floor=3)
@@ -124,8 +181,17 @@ def r2(prog, ev, rep):
     src, stages = PL.unwind(body.a[2][0][1])
     names = [s[0] for s in stages]
     good = src == Tm("proj", (t.a[0], "Data::Refs.0")) and names == ["into_iter", "flat_map", "collect"]
-    rep.check(good, "C02-R2", "flat_map/Refs/pipeline", where, "into_iter -> flat_map -> collect", "pipeline %s over `%s`" % (names, src))
+    if not good and loop_form_flat_map(prog, ev, rep, t, body, where):
+        pass
+    else:
+        rep.check(good, "C02-R2", "flat_map/Refs/pipeline", where, "into_iter -> flat_map -> collect", "pipeline %s over `%s`" % (names, src))
     if not good:
+        sp = prog.inherent_method("crate::query::state::State", "flat_map")
+        st = ev.summary(sp)
+        f = dict(st.a[2]) if st.k == "adt" else {}
+        d = f.get("data")
+        okd = d is not None and d.k == "call" and d.a[0] == p and d.a[1] == Tm("field", (Tm("param", (0, "self")), "data")) and d.a[2].k == "param"
+        rep.check(okd, "C02-R2", "State::flat_map", prog.loc_of(sp), "self.data.flat_map(f)", "State::flat_map is `%s`" % st)
         return
     item = Tm("param", (95, "node"))
     wb = ev.apply(stages[1][1][0], [item])
@@ -245,12 +311,18 @@ def r4(ctx, prog, ev, rep):
              "selector and the nodelist algebra")
     evalr, _ = prog.evaluator()
     bodies = sorted(evalr)
+    try:
+        reduce_fn = prog.inherent_method(DATA, "reduce")
+    except Exception:
+        reduce_fn = None
     hits, n = census.scan_calls(prog, bodies, census.ORDER_CHANGING)
     for lab, p, node, name in hits:
         if lab == "retain-drain" and ("String::" in name or "str" in name.split("::")[-2:][0]):
             continue
         if lab == "rev" and not carries_nodes(node):
             continue    # reversing a range of integers / characters: the index walk itself is decided by C02-R6 / C11-R6
+        if lab == "retain-drain" and name.endswith("::insert") and prog.owner_fn(p) == reduce_fn:
+            continue    # in-place concatenation inside Data::reduce: its sequence semantics is decided exactly by C02-R1
         rep.bad("C02-R4", "%s|%s|%s" % (prog.owner_fn(p), lab, name.rsplit("::", 1)[1]), T.loc(node),
                 "`%s` (%s) in `%s` can change the order or multiplicity of the result list" % (name, lab, p))
     th, _ = census.scan_types(prog, bodies, r"std::collections::hash|alloc::collections::(btree|binary_heap)")
